@@ -703,6 +703,16 @@ func (g *G) oracleOp() {
 		}
 		g.emit("consent %s %s", vt, nf)
 	case 11:
+		if g.p.Powers && g.p.ParamGrid && r.P(1, 6) {
+			g.removedScript()
+			return
+		}
+		if g.p.Powers && r.P(1, 5) {
+			// a validator leaves the staking module altogether (its unbonding ended with nothing delegated); the oracle may still hold a
+			// miss counter or a ballot under its address
+			g.emit("setval v%d 0 x 0 -", r.N(world.NVal))
+			return
+		}
 		if g.p.Powers && r.P(1, 2) {
 			g.randPowers()
 		} else if g.p.Rewards {
@@ -710,6 +720,43 @@ func (g *G) oracleOp() {
 		} else {
 			g.block()
 		}
+	}
+}
+
+// removedScript: a validator collects more misses than the window allows and then leaves the staking module before the window closes.
+// Closing the window must still complete, slash nobody for it, and reset its counter.
+func (g *G) removedScript() {
+	r := g.r
+	var ext []string
+	for _, c := range g.chains {
+		if c != world.ThisChain {
+			ext = append(ext, c)
+		}
+	}
+	if len(ext) == 0 {
+		return
+	}
+	g.vp, g.win, g.maxMiss = 1, 8, 1
+	g.emit("setoparams 1 0.5 %s 8 1", g.frac)
+	g.block()
+	x := r.N(world.NVal)
+	g.emit("setval v%d 1 1 0 -", x)
+	vd := "O:" + e(g.entry(extNft{ext[0], contracts[0], tokens[0]}, ownerStrs[1]))
+	for i := 0; i < 2+r.N(2); i++ {
+		for !g.inPrevote() {
+			g.block()
+		}
+		rs := g.roundStart()
+		salt := fmt.Sprintf("x%d", i)
+		// alone with its answer: no owner is accepted, the voter is charged a miss
+		g.emit("prevote o%d v%d %s %d", x, x, e(VoteHash(salt, vd)), rs)
+		g.block()
+		g.emit("vote o%d v%d %s %d %s", x, x, e(salt), rs, vd)
+		g.block()
+	}
+	g.emit("setval v%d 0 x 0 -", x)
+	for i := 0; i < 9; i++ {
+		g.block()
 	}
 }
 
@@ -834,6 +881,31 @@ func (g *G) tieScript() {
 // roundScript plays one complete, well-timed commit-reveal round for several validators.
 func (g *G) roundScript() {
 	r := g.r
+	if r.P(1, 2) && len(g.tenants) > 0 && !g.p.Isolate {
+		// two waiting records for different NFTs of a supported chain, recorded before the round that will decide them
+		var ext []string
+		for _, c := range g.chains {
+			if c != world.ThisChain {
+				ext = append(ext, c)
+			}
+		}
+		t := g.tenants[0]
+		if len(ext) > 0 && t.method == "native" {
+			chain := rng.Pick(r, ext)
+			k := r.N(len(tokens))
+			for i := 0; i < 2; i++ {
+				tok := tokens[(k+i)%len(tokens)]
+				req := fmt.Sprintf("w%d", t.nreq)
+				t.nreq++
+				g.emit("record %s %d %s %d %s %s %s %s", t.admins[0], t.id, e(req), 1+r.N(9), e(t.denom), e(chain), e(contracts[0]), e(tok))
+				t.pending = append(t.pending, req)
+				g.ext = append(g.ext, extNft{chain, contracts[0], tok})
+			}
+			for g.inPrevote() {
+				g.block()
+			}
+		}
+	}
 	for !g.inPrevote() {
 		g.block()
 	}
@@ -848,10 +920,15 @@ func (g *G) roundScript() {
 	if r.P(1, 3) && len(g.ext) > 0 {
 		seen := map[extNft]bool{}
 		var es []string
+		fresh := r.P(1, 2) // owners that hold no account yet, a different one per NFT
 		for _, n := range g.ext {
 			if !seen[n] && len(es) < 6 {
 				seen[n] = true
-				es = append(es, e(g.entry(n, ownerStrs[0])))
+				o := ownerStrs[0]
+				if fresh {
+					o = "0x" + strings.Repeat(string("123456789abc"[(len(es)+int(g.height))%12]), 40)
+				}
+				es = append(es, e(g.entry(n, o)))
 			}
 		}
 		common = "O:" + strings.Join(es, ",")
